@@ -413,6 +413,7 @@ pub struct Driver {
     pub hang: bool,
     pub grants: HashMap<&'static str, usize>,
     pub seen: HashMap<&'static str, usize>,
+    pub diverged: bool,
 }
 
 fn th_cli(c: i64) -> String {
@@ -479,9 +480,8 @@ impl Driver {
             }
             cl.mode = m.to_string();
             ctx.record("Cli_SendHalf", &th_cli(c), c, 0, "");
-            let path = if m == "w" { "/w" } else { "/h" };
-            let data = format!("GET {}?c={}&m={} HTTP/1.1\r\nHost: c20.test\r\nX-Half: ", path, c, m);
-            let _ = Self::write_all_nb(cl.sock.as_mut().unwrap(), data.as_bytes());
+            // the first half is only the method: the target depends on the kind chosen with the second half
+            let _ = Self::write_all_nb(cl.sock.as_mut().unwrap(), b"GET ");
         }
     }
 
@@ -494,11 +494,13 @@ impl Driver {
             cl.kind = kind.to_string();
             cl.outstanding = kind != "ws";
             ctx.record("Cli_SendRest", &th_cli(c), c, 0, kind);
-            let tail = match kind {
-                "keep" => "1\r\nConnection: keep-alive\r\n\r\n",
-                "ws" => "1\r\nUpgrade: websocket\r\nConnection: Upgrade\r\n\r\n",
-                _ => "1\r\nConnection: close\r\n\r\n",
+            let path = if kind == "ws" { "/w" } else { "/h" };
+            let conn = match kind {
+                "keep" => "Connection: keep-alive\r\n\r\n",
+                "ws" => "Upgrade: websocket\r\nConnection: Upgrade\r\n\r\n",
+                _ => "Connection: close\r\n\r\n",
             };
+            let tail = format!("{}?c={}&m={} HTTP/1.1\r\nHost: c20.test\r\n{}", path, c, cl.mode, conn);
             let _ = Self::write_all_nb(cl.sock.as_mut().unwrap(), tail.as_bytes());
         }
     }
@@ -686,10 +688,17 @@ impl Driver {
                 let seen = *self.seen.entry(class).or_insert(0);
                 self.pass_gates(class, seen);
                 let ctx = self.ctx.clone();
-                // wait until the class has reported seen+1 events
+                // wait until the class has reported seen+1 events.  tokio: once the token is cancelled select! may
+                // take either ready arm, so a behaviour in which accept() wins cannot be forced - when run returns
+                // instead, the rest of the behaviour is not replayed (not a hang)
                 let me: *mut Driver = self;
-                let ok = wait_cond(&ctx, || unsafe { (*me).class_events(class) > seen });
-                if !ok {
+                let may_diverge = self.cfg.rt == "tokio" && self.sig_sent;
+                let ok = wait_cond(&ctx, || unsafe {
+                    (*me).class_events(class) > seen || (may_diverge && (*me).ctx.has_event("Run_Return"))
+                });
+                if ok && self.class_events(class) <= seen {
+                    self.diverged = true;
+                } else if !ok {
                     self.problems.push(format!("gated step {}: no event from {}", s2, class));
                     self.hang = true;
                 } else {
@@ -1079,7 +1088,7 @@ where
         let port = pick_port(rng);
         let server = start(&cfg, ctx.clone(), port);
         let target: SocketAddr = if cfg.bind.contains(':') { format!("[::1]:{}", port) } else { format!("127.0.0.1:{}", port) }.parse().unwrap();
-        let d = Driver { ctx: ctx.clone(), cfg: cfg.clone(), port, target, clis: HashMap::new(), server, sig_sent: false, problems: vec![], hang: false, grants: HashMap::new(), seen: HashMap::new() };
+        let d = Driver { ctx: ctx.clone(), cfg: cfg.clone(), port, target, clis: HashMap::new(), server, sig_sent: false, problems: vec![], hang: false, grants: HashMap::new(), seen: HashMap::new(), diverged: false };
         let up = wait_cond(&ctx, || listening(port) || ctx.has_event("Run_Return"));
         if up && !ctx.has_event("Run_Return") {
             break (ctx, d);
@@ -1093,7 +1102,7 @@ where
     let steps = cfg.steps.clone();
     for st in &steps {
         d.step(st);
-        if d.hang {
+        if d.hang || d.diverged {
             break;
         }
     }
@@ -1103,7 +1112,7 @@ where
     let hang = d.hang;
     set_current(None);
     (json!({"scenario": cfg.id, "rt": cfg.rt, "nw": cfg.nw, "bind": cfg.bind, "nc": cfg.nc, "sigkind": cfg.sigkind,
-            "steps": cfg.steps, "expect": cfg.expect, "verdict": verdict, "problems": d.problems, "hang": hang,
+            "steps": cfg.steps, "expect": cfg.expect, "verdict": verdict, "problems": d.problems, "hang": hang, "diverged": d.diverged,
             "outcome": outcome, "events": events}), hang)
 }
 
